@@ -812,6 +812,8 @@ class Gen:
                 l = ch.choice(cands)
                 args.append(l)
                 passed_lists.append((pn, l))
+            elif isinstance(pt, Bo):
+                args.append(self.bool_arg(fn, C))
             else:
                 return None
         self.features.add('helper-call')
@@ -833,6 +835,82 @@ class Gen:
                 if l not in fn.must_observe:
                     fn.must_observe.append(l)
         return f'{h.name}({", ".join(args)})'
+
+    def bool_arg(self, fn, C):
+        ch = self.ch
+        bs = self.vars_of(fn, lambda t: isinstance(t, Bo))
+        if bs and ch.bool(0.5):
+            return ch.choice(bs)
+        return ch.choice(['True', 'False']) if ch.bool(0.6) else self.boolean(fn, C, 0)
+
+    def two_site_scenario(self, fn, C, ind, out):
+        """One helper called from two sites of the same context with arguments of DIFFERENT formats (a binary32 value at
+        one site, a binary64 value at the other): each site needs its own specialisation."""
+        ch = self.ch
+        hs = [h for h in self.helpers if isinstance(h.ret, Sc) and all(isinstance(t, (Sc, Bo)) for _, t in h.params)
+              and any(isinstance(t, Sc) and t.kind == 'f64' for _, t in h.params)
+              and (h.own_ctx is not None or h.assumed.is_float)]
+        if not hs:
+            return False
+        h = ch.choice(hs)
+        H = h.own_ctx or h.assumed
+        lines = []
+        inner = ind
+        K = C
+        if h.own_ctx is None and C.kind != H.kind:
+            K = Ctx(H.kind, ch.choice(RMS))
+            lines.append(f'{ind}with {K.text}:')
+            inner = ind + '    '
+        elif not C.is_float:
+            return False
+        # a binary32 and a binary64 value, both surely float-stored
+        vals = {}
+        pre = []
+        for kind in ('f32', 'f64'):
+            cands = self.scalars(fn, lambda k: k == kind)
+            cands = [v for v in cands if fn.env[v].sf]
+            if cands and ch.bool(0.7):
+                vals[kind] = ch.choice(cands)
+            else:
+                Kk = Ctx(kind, ch.choice(RMS))
+                w = fn.fresh('v')
+                pre.append(f'{ind}with {Kk.text}:')
+                pre.append(f'{ind}    {w} = {self.inexact(fn, Kk)}')
+                fn.env[w] = Sc(kind, sf=True)
+                vals[kind] = w
+        calls = []
+        for kind in (('f32', 'f64') if ch.bool(0.5) else ('f64', 'f32')):
+            args = []
+            used = False
+            for pn, pt in h.params:
+                if isinstance(pt, Bo):
+                    args.append(self.bool_arg(fn, K))
+                elif pt.kind == 'f64' and not used:
+                    args.append(vals[kind])
+                    used = True
+                else:
+                    cands = [v for v in self.scalars(fn, lambda k: fits(k, pt.kind)) if fn.env[v].sf or not pt.sf]
+                    if not cands:
+                        return False
+                    args.append(ch.choice(cands))
+            calls.append(f'{h.name}({", ".join(args)})')
+        out += pre + lines
+        names = []
+        for c in calls:
+            v = fn.fresh('v')
+            out.append(f'{inner}{v} = {c}')
+            fn.env[v] = Sc(h.ret.kind, sf=h.ret_sf)
+            names.append(v)
+        w = fn.fresh('v')
+        out.append(f'{inner}{w} = ({names[0]} + {names[1]})')
+        fn.env[w] = Sc(K.kind if K.is_float else h.ret.kind, sf=h.ret_sf)
+        for n in names + [w]:
+            if n not in fn.must_observe:
+                fn.must_observe.append(n)
+        self.features.add('helper-call')
+        self.features.add('helper-two-sites-different-arg-formats')
+        self.features.add('helper-with-own-ctx' if h.own_ctx is not None else 'helper-inherits-ctx')
+        return False
 
     def call_scalar(self, fn, C, d):
         hs = self.callable_helpers(fn, C, lambda h: isinstance(h.ret, Sc) and not (
@@ -1123,6 +1201,8 @@ class Gen:
             opts += [(8, 'if'), (4, 'if1'), (8, 'for'), (14, 'with'), (3, 'while')]
         if fn.is_main and self.helpers:
             opts.append((8, 'callstmt'))
+            if depth > 0:
+                opts.append((7, 'two-site'))
             if depth > 0 and any(h.params and isinstance(h.params[0][1], (Li, LL)) for h in self.helpers):
                 opts.append((14, 'alias-call'))
         opts.append((1, 'assert'))
@@ -1305,6 +1385,10 @@ class Gen:
             self.grid3_scenario(fn, C, ind, out)
         elif k == 'mode-return':
             return self.mode_return_scenario(fn, C, ind, out, in_with)
+        elif k == 'two-site':
+            env, obs, n_out, feats = dict(fn.env), list(fn.must_observe), len(out), set(self.features)
+            if self.two_site_scenario(fn, C, ind, out) is False and len(out) == n_out:
+                fn.env, fn.must_observe, self.features = env, obs, feats       # nothing emitted: nothing stays bound
         elif k == 'loop-bound':
             self.loop_bound_scenario(fn, C, ind, out)
         elif k == 'agg-swap':
@@ -1894,6 +1978,9 @@ class Gen:
         ch = self.ch
         args = [first_arg]
         for pn, pt in h.params[1:]:
+            if isinstance(pt, Bo):
+                args.append(self.bool_arg(fn, C))
+                continue
             if not isinstance(pt, Sc):
                 return None
             cands = self.scalars(fn, lambda k: fits(k, pt.kind))
@@ -2050,7 +2137,7 @@ class Gen:
     def gen_helper(self, idx):
         ch = self.ch
         name = f'h{idx}'
-        kind = ch.weighted([(4, 'scalar'), (6, 'writes-list'), (2, 'returns-arg'), (2, 'new-list'), (2, 'writes-nested')])
+        kind = ch.weighted([(7, 'scalar'), (6, 'writes-list'), (2, 'returns-arg'), (2, 'new-list'), (2, 'writes-nested')])
         own = self.float_ctx() if ch.bool(0.4) else None
         if own is None:
             assumed = self.float_ctx()
@@ -2072,7 +2159,14 @@ class Gen:
         nsc = ch.int(1, 2)
         for i in range(nsc):
             k = ch.choice(['f32', 'f64', 'f64']) if assumed.is_float else assumed.kind
+            if kind == 'scalar' and i == 0 and assumed.is_float:
+                k = 'f64'          # accepts binary32 and binary64 arguments: one specialisation per argument format
             params.append((f'p{len(params)}', Sc(k, sf=k in FLOATS)))
+        pb = None
+        if ch.bool(0.65 if kind == 'scalar' else 0.3):
+            # a non-numeric parameter next to the numeric ones (its format is "trivial" for specialisation keys)
+            pb = f'p{len(params)}'
+            params.append((pb, Bo()))
         for n, t in params:
             fn.env[n] = t
             if isinstance(t, (Li, LL)):
@@ -2126,10 +2220,15 @@ class Gen:
             t, kk = self.num(fn, C, 2)
             if kk not in FLOATS and C.is_float:
                 t, kk = f'({t} + {self.operand(fn, C, 0)[0]})', C.kind
+            if pb is not None and C.is_float and kk == C.kind:
+                a2, _ = self.operand(fn, C, 1)
+                b2, _ = self.operand(fn, C, 0)
+                t = f'({t} if {pb} else ({a2} + {b2}))'
+                self.features.add('helper-bool-param')
             body.append(f'    return {t}')
             ret = Sc(kk)
             ret_sf = self.sf_of(fn, t, C)
-        ann = {Sc: 'fp.Real', Li: 'list[fp.Real]', LL: 'list[list[fp.Real]]'}
+        ann = {Sc: 'fp.Real', Li: 'list[fp.Real]', LL: 'list[list[fp.Real]]', Bo: 'bool'}
         sig = ', '.join(f'{n}: {ann[type(t)]}' for n, t in params)
         deco = '@fp.fpy' if own is None else f'@fp.fpy(ctx={own.text})'
         self.lines += [deco, f'def {name}({sig}):'] + body + ['']
@@ -2175,6 +2274,10 @@ class Gen:
         fn.ret_shape = self.pick_ret_shape(fn, True)
         fn.ret_kind = top.kind
         body = []
+        if self.helpers and ch.bool(0.6):
+            env, obs, feats = dict(fn.env), list(fn.must_observe), set(self.features)
+            if self.two_site_scenario(fn, top, '    ', body) is False and not body:
+                fn.env, fn.must_observe, self.features = env, obs, feats
         returned = self.block(fn, top, '    ', ch.int(3, self.max_stmts), 3, body)
         if not returned:
             t = self.final_return(fn, top)
@@ -2290,7 +2393,7 @@ N_INPUTS = 6
 def gen_case(ch: Chooser, shard=0, n_inputs=N_INPUTS):
     for attempt in range(20):
         g = Gen(ch, shard)
-        nh = ch.weighted([(4, 0), (4, 1), (2, 2)])
+        nh = ch.weighted([(3, 0), (4, 1), (3, 2)])
         for i in range(nh):
             g.helpers.append(g.gen_helper(i))
         m = g.gen_main()
